@@ -489,6 +489,45 @@ def run_c12(tier, seed):
             violations.append({'class': cls, 'detail': f"case {cid} ({name}): the uninterrupted run continues with `{ex}`, the reloaded run with `{ob}` (line {k})",
                                'case': {'kind': 'engine-variant', 'case': c, 'variant': name, 'flags': list(flags), 'at': k, 'expected': ex, 'observed': ob}})
         stats[name] = {'same': same, 'of': len(cases)}
+    # several open processes of one model, started with different inputs, across an engine restart on the SQLite store (the
+    # bulk restore of a starting engine, Store::load, rebuilds all of them): every process continues as in the run that was
+    # never stopped
+    import multi
+    from common import Rng
+    r = Rng(seed * 271 + 12)
+    _res, solo, members = multi.corpus_members(tier, seed)
+    groups, plan = [], {}
+    for g in range(12 if tier == 'quick' else 120):
+        m = r.pick(members)
+        size = 2 + r.below(2)
+        pids = [f"p{k}" for k in range(size)]
+        starts = [{'start': 0, 'pid': p, 'vars': {'k3': 100 + 10 * k, 'k4': 200 + 10 * k}} for k, p in enumerate(pids)]
+        seqs = [[dict(p=p, t=o['t'], a=o['a'], o=o['o']) for o in m['ops']] for p in pids]
+        ops = multi.interleave(r, seqs)
+        cut = r.below(len(ops) + 1)
+        base = {'cfg': {'keep': True, 'backend': 'sqlite'}, 'models': [m['wf']], 'procs': {p: 0 for p in pids}}
+        groups.append(dict(base, id=f"u{g}", ops=starts + ops))
+        groups.append(dict(base, id=f"v{g}", ops=starts + ops[:cut] + [{'restart': 1}] + ops[cut:]))
+        plan[g] = (m, pids, cut)
+    got = multi.run_multi(groups, os.path.join(res['dir'], 'multi-restart'))
+    violations += multi.problems('12', groups, got)
+    same_multi = 0
+    for g, (m, pids, cut) in plan.items():
+        for p in pids:
+            x = [f(l) for l in got.get(f"u{g}/{p}", []) if l.split(' ')[0] in kinds]
+            y = [f(l) for l in got.get(f"v{g}/{p}", []) if l.split(' ')[0] in kinds]
+            if x == y:
+                same_multi += 1
+                continue
+            k = 0
+            while k < min(len(x), len(y)) and x[k] == y[k]:
+                k += 1
+            ex = x[k] if k < len(x) else 'END'
+            ob = y[k] if k < len(y) else 'END'
+            cls = '12:generated_node_not_created' if (ex.startswith('N ') and ex.split(' ')[2] == 'dyn') else f"12:multi:{ex.split(' ')[0]}/{ob.split(' ')[0]}"
+            violations.append({'class': cls, 'detail': f"group of {len(pids)} processes of one model (corpus case {m['id']}), engine restarted after {cut} operations: process {p} continues with `{ex}` when never stopped, with `{ob}` after the restart (line {k})",
+                               'case': {'kind': 'multi', 'case': next(c for c in groups if c['id'] == f"v{g}"), 'pid': p}})
+    stats['multi-restart'] = {'same': same_multi, 'of': sum(len(v[1]) for v in plan.values())}
     cases, a = runs[0][2], runs[0][1]
     nontrivial = len([cid for cid in cases if sum(1 for l in a.get(cid, []) if l.startswith('A ')) >= 2])
     cov = {'evaluations': 2 * len(cases) + 2 * len(anon['by_id']), 'distinct_nontrivial': nontrivial,
